@@ -45,3 +45,24 @@ package bugcmd
 //@ func runBugRm
 //@   props C14
 //@   assert at `err = env.Backend.Bugs().Remove(args[0])` [removes-what-was-named] len(args) > 0
+
+// The completion helpers of the bug commands open the cache like a command does and give it back exactly when the open
+// succeeded (C19; see commands/completion).
+//@ func BugCompletion$1
+//@   props C19
+//@   requires env != nil
+//@   stable cache.closeCalls, execenv.lastLoadOK
+//@   ensures [a-refused-open-closes-nothing] !execenv.lastLoadOK ==> cache.closeCalls == old(cache.closeCalls)
+//@   ensures [an-opened-cache-is-given-back] execenv.lastLoadOK ==> cache.closeCalls == old(cache.closeCalls) + 1
+//@ func BugCompletion$1$1
+//@   props C19
+//@   ensures [closes-once] cache.closeCalls == old(cache.closeCalls) + 1
+//@ func BugAndLabelsCompletion$1
+//@   props C19
+//@   requires env != nil
+//@   stable cache.closeCalls, execenv.lastLoadOK
+//@   ensures [a-refused-open-closes-nothing] !execenv.lastLoadOK ==> cache.closeCalls == old(cache.closeCalls)
+//@   ensures [an-opened-cache-is-given-back] execenv.lastLoadOK ==> cache.closeCalls == old(cache.closeCalls) + 1
+//@ func BugAndLabelsCompletion$1$1
+//@   props C19
+//@   ensures [closes-once] cache.closeCalls == old(cache.closeCalls) + 1
